@@ -172,7 +172,10 @@ func (c24) Execute(t *testing.T, ctx *simrt.Ctx) *simrt.Violation {
 			it := &qitem{hash: op.Str(0), score: op.Int(0), size: op.Int(1), weight: op.Int(2), useW: useW, serial: serial}
 			wasFull := len(m.items) >= m.cap
 			admit, evict, why := m.push(it)
-			err := q.Push(it)
+			var err error
+			if p := guard(func() { err = q.Push(it) }); p != nil {
+				return ctx.Violate("queue-panicked", "push", "Push(%v) panicked: %v; model before=%v", it, p, m.items)
+			}
 			switch {
 			case admit && err != nil:
 				return ctx.Violate("queue-mismatch", "push/refused-but-admissible", "Push(%v) returned %v; model admits it (full=%v evict=%v) model=%v", it, err, wasFull, evict, m.items)
@@ -205,7 +208,10 @@ func (c24) Execute(t *testing.T, ctx *simrt.Ctx) *simrt.Violation {
 				}
 			}
 			idx := m.find(hash)
-			err := q.Remove(hash)
+			var err error
+			if p := guard(func() { err = q.Remove(hash) }); p != nil {
+				return ctx.Violate("queue-panicked", "remove", "Remove(%s) panicked: %v; model=%v", hash, p, m.items)
+			}
 			if idx >= 0 {
 				if err != nil {
 					return ctx.Violate("queue-mismatch", "remove/failed-for-member", "Remove(%s) returned %v but the item is a member; model=%v", hash, err, m.items)
@@ -220,11 +226,15 @@ func (c24) Execute(t *testing.T, ctx *simrt.Ctx) *simrt.Violation {
 			}
 		case "drain":
 			for len(m.items) > 0 {
-				f := q.First()
+				var f skiplist.Scorer
+				var err error
+				if p := guard(func() { f = q.First(); err = q.Remove(m.items[0].hash) }); p != nil {
+					return ctx.Violate("queue-panicked", "drain", "First/Remove(%s) panicked: %v; model=%v", m.items[0].hash, p, m.items)
+				}
 				if f == nil || f.(*qitem) != m.items[0] {
 					return ctx.Violate("queue-mismatch", "first", "drain: First()=%v model first=%v", f, m.items[0])
 				}
-				if err := q.Remove(m.items[0].hash); err != nil {
+				if err != nil {
 					return ctx.Violate("queue-mismatch", "remove/failed-for-member", "drain: Remove(%s) = %v", m.items[0].hash, err)
 				}
 				m.removeAt(0)
@@ -236,11 +246,15 @@ func (c24) Execute(t *testing.T, ctx *simrt.Ctx) *simrt.Violation {
 			count, stopAt := int(op.Int(0)), int(op.Int(1))
 			var got []*qitem
 			calls := 0
-			q.Walk(count, func(v skiplist.Scorer) bool {
-				calls++
-				got = append(got, v.(*qitem))
-				return stopAt == 0 || calls < stopAt
-			})
+			if p := guard(func() {
+				q.Walk(count, func(v skiplist.Scorer) bool {
+					calls++
+					got = append(got, v.(*qitem))
+					return stopAt == 0 || calls < stopAt
+				})
+			}); p != nil {
+				return ctx.Violate("queue-panicked", "walk", "Walk(%d) panicked: %v; model=%v", count, p, m.items)
+			}
 			want := len(m.items)
 			if count > 0 && count < want {
 				want = count
@@ -265,22 +279,59 @@ func (c24) Execute(t *testing.T, ctx *simrt.Ctx) *simrt.Violation {
 	return nil
 }
 
+// guard runs calls into the queue and reports a panic instead of propagating it.
+func guard(f func()) (p interface{}) {
+	defer func() { p = recover() }()
+	f()
+	return nil
+}
+
+// qobs is everything the queue lets a caller observe.
+type qobs struct {
+	size        int
+	bytes       int64
+	first, last skiplist.Scorer
+	walk        []*qitem
+	exist       [c24Hashes]bool
+	item        [c24Hashes]skiplist.Scorer
+	itemErr     [c24Hashes]error
+}
+
+func observe(q *skiplist.Queue) (o qobs, p interface{}) {
+	p = guard(func() {
+		o.size = q.Size()
+		o.bytes = q.GetCacheBytes()
+		o.first, o.last = q.First(), q.Last()
+		q.Walk(0, func(v skiplist.Scorer) bool { o.walk = append(o.walk, v.(*qitem)); return true })
+		for h := 0; h < c24Hashes; h++ {
+			hash := fmt.Sprintf("h%d", h)
+			o.exist[h] = q.Exist(hash)
+			o.item[h], o.itemErr[h] = q.GetItem(hash)
+		}
+	})
+	return
+}
+
 // c24Compare compares every observable of the queue with the model.
 func c24Compare(ctx *simrt.Ctx, q *skiplist.Queue, m *qmodel, capacity int) *simrt.Violation {
-	if q.Size() > capacity {
-		return ctx.Violate("queue-mismatch", "capacity-exceeded", "Size()=%d > capacity %d", q.Size(), capacity)
+	o, p := observe(q)
+	if p != nil {
+		return ctx.Violate("queue-panicked", "observe", "Size/GetCacheBytes/First/Last/Walk/Exist/GetItem panicked: %v; model=%v", p, m.items)
 	}
-	if q.Size() != len(m.items) {
-		return ctx.Violate("queue-mismatch", "size", "Size()=%d model %d; model=%v", q.Size(), len(m.items), m.items)
+	if o.size > capacity {
+		return ctx.Violate("queue-mismatch", "capacity-exceeded", "Size()=%d > capacity %d", o.size, capacity)
+	}
+	if o.size != len(m.items) {
+		return ctx.Violate("queue-mismatch", "size", "Size()=%d model %d; model=%v", o.size, len(m.items), m.items)
 	}
 	var bytes int64
 	for _, it := range m.items {
 		bytes += it.size
 	}
-	if q.GetCacheBytes() != bytes {
-		return ctx.Violate("queue-mismatch", "bytes", "GetCacheBytes()=%d, sum of member sizes %d; model=%v", q.GetCacheBytes(), bytes, m.items)
+	if o.bytes != bytes {
+		return ctx.Violate("queue-mismatch", "bytes", "GetCacheBytes()=%d, sum of member sizes %d; model=%v", o.bytes, bytes, m.items)
 	}
-	f, l := q.First(), q.Last()
+	f, l := o.first, o.last
 	if len(m.items) == 0 {
 		if f != nil || l != nil {
 			return ctx.Violate("queue-mismatch", "first-last/empty", "empty queue: First()=%v Last()=%v", f, l)
@@ -293,8 +344,7 @@ func c24Compare(ctx *simrt.Ctx, q *skiplist.Queue, m *qmodel, capacity int) *sim
 			return ctx.Violate("queue-mismatch", "last", "Last()=%v model %v; model=%v", l, m.items[len(m.items)-1], m.items)
 		}
 	}
-	var got []*qitem
-	q.Walk(0, func(v skiplist.Scorer) bool { got = append(got, v.(*qitem)); return true })
+	got := o.walk
 	if len(got) != len(m.items) {
 		return ctx.Violate("queue-mismatch", "walk/length", "full walk yields %v; model=%v", got, m.items)
 	}
@@ -315,10 +365,10 @@ func c24Compare(ctx *simrt.Ctx, q *skiplist.Queue, m *qmodel, capacity int) *sim
 	for h := 0; h < c24Hashes; h++ {
 		hash := fmt.Sprintf("h%d", h)
 		idx := m.find(hash)
-		if q.Exist(hash) != (idx >= 0) {
-			return ctx.Violate("queue-mismatch", "exist", "Exist(%s)=%v, model member=%v; model=%v", hash, q.Exist(hash), idx >= 0, m.items)
+		if o.exist[h] != (idx >= 0) {
+			return ctx.Violate("queue-mismatch", "exist", "Exist(%s)=%v, model member=%v; model=%v", hash, o.exist[h], idx >= 0, m.items)
 		}
-		it, err := q.GetItem(hash)
+		it, err := o.item[h], o.itemErr[h]
 		if idx >= 0 {
 			if err != nil || it == nil || it.(*qitem) != m.items[idx] {
 				return ctx.Violate("queue-mismatch", "getitem", "GetItem(%s)=%v,%v model %v", hash, it, err, m.items[idx])
